@@ -102,6 +102,41 @@ func C11Harnesses(threads int) []*C11Harness {
 		})
 	}
 	hs = append(hs, h1b)
+	// H7: own objects whose example (about 1200 bytes) and OpenAPI text outgrow the pooled
+	// buffers' initial capacity: whatever a pool does with a grown buffer (park it in a
+	// slot, replace it) is met by the other goroutine's next Get. One result is built
+	// before the threads start, so that a grown buffer is already around.
+	mkLarge := func(tag string) *project {
+		var b strings.Builder
+		b.WriteString("{")
+		// (the nested object takes a buffer of its own while the outer one is held: the
+		// only scheduling point inside the window between a Get and its Put)
+		fmt.Fprintf(&b, "\n\t\"%s0\": \"%s\",\n\t\"in\": {\n\t\t\"v\": 1\n\t},\n\t\"%s1\": \"%s\"", tag, strings.Repeat(tag, 600), tag, strings.Repeat(tag, 600))
+		b.WriteString("\n}")
+		return &project{Root: b.String()}
+	}
+	h7 := &C11Harness{Name: "H7-own-large-results", Pool: true, Setup: func() any {
+		var ss []*jschema.JSchema
+		for i := 0; i < threads; i++ {
+			s, _ := buildProject(mkLarge(string(rune('a' + i))))
+			s.Check()
+			ss = append(ss, s)
+		}
+		warm, _ := buildProject(mkLarge("w"))
+		warm.Example()
+		openapi.NewSchemaObject(warm).MarshalJSON()
+		return ss
+	}}
+	for i := 0; i < threads; i++ {
+		i := i
+		h7.Threads = append(h7.Threads, func(x any) string {
+			s := x.([]*jschema.JSchema)[i]
+			ex, e := s.Example()
+			o, e2 := openapi.NewSchemaObject(s).MarshalJSON()
+			return "example=" + string(ex) + "|" + errSnap(e) + " openapi=" + string(o) + "|" + errSnap(e2)
+		})
+	}
+	hs = append(hs, h7)
 	// H2: one shared schema with types
 	shared := func() any {
 		s, _ := buildProject(c10Projects["S1"])
